@@ -106,6 +106,30 @@ theorem mem_symUpdate (s : OSet) (xs : List Nat) (y : Nat) :
   rw [mem_foldl_toggle _ (nodup_ofList xs)]
   simp only [mem_ofList]
 
+/-! ### refinement to the abstract set -/
+
+theorem mem_step (s : OSet) (P : Nat → Prop) (h : ∀ y, y ∈ s ↔ P y) (op : Op) (y : Nat) :
+    y ∈ step s op ↔ specStep P op y := by
+  cases op with
+  | add x => simp only [step, specStep, mem_add, h]
+  | discard x => simp only [step, specStep, mem_discard, h]
+  | update xs => simp only [step, specStep, mem_update, h]
+  | diff xs => simp only [step, specStep, mem_diffUpdate, h]
+  | inter xs => simp only [step, specStep, mem_interUpdate, h]
+  | sym xs => simp only [step, specStep, mem_symUpdate, h]
+  | clear => simp [step, specStep]
+
+theorem mem_run (ops : List Op) (y : Nat) : y ∈ run ops ↔ specRun ops y := by
+  unfold run specRun
+  suffices ∀ (s : OSet) (P : Nat → Prop), (∀ y, y ∈ s ↔ P y) →
+      ∀ y, y ∈ ops.foldl step s ↔ ops.foldl specStep P y from
+    this [] (fun _ => False) (by simp) y
+  induction ops with
+  | nil => intro s P h y; simpa using h y
+  | cons op ops ih =>
+    intro s P h y
+    exact ih (step s op) (specStep P op) (fun z => mem_step s P h op z) y
+
 /-! ### insertion order -/
 
 /-- the kept old keys stay in their relative order and every key that was not
